@@ -159,6 +159,29 @@ func checkC19(r *core.Run) {
 		evCall("close the snapshot", "(*os.File).Close", -1),
 		evCall("remove the log and the other snapshot", "os.Remove", -1),
 	})
+	// defrag copies each record: the value is loaded from the file and offset the index record still names
+	// BEFORE the record is pointed at the new file (loadrec reads rec.DataSeq / rec.datpos)
+	if df := q("(*DB).defrag"); df != nil {
+		var cb *ssa.Function
+		for _, f := range df.AnonFuncs {
+			if len(an.CallsTo(f, false, "(*lib/others/qdb.DB).loadrec")) > 0 {
+				cb = f
+			}
+		}
+		if cb == nil {
+			r.Fail("R-C19-order", "defrag/load-before-repoint", p.Pos(df.Pos()), "the record-copying callback of defrag (calling loadrec) was not found")
+		} else {
+			c19Order(r, p, "R-C19-order", "defrag/load-before-repoint", cb, []c19Ev{
+				evCall("load the value from its current place", "(*lib/others/qdb.DB).loadrec", -1),
+				evCall("append it to the new data file", "(*lib/others/qdb.DB).addtolog", -1),
+				evStore("point the record at the new file", "lib/others/qdb.oneIdx.DataSeq"),
+			})
+			c19Order(r, p, "R-C19-order", "defrag/load-before-new-position", cb, []c19Ev{
+				evCall("load the value from its current place", "(*lib/others/qdb.DB).loadrec", -1),
+				evStore("record the new position", "lib/others/qdb.oneIdx.datpos"),
+			})
+		}
+	}
 	// the sequence number is written at both ends of the snapshot
 	if wd != nil {
 		n := 0
